@@ -508,5 +508,65 @@ func c13IdleMidFrame(c *Ctx) {
 			}(listener, rep)
 		}
 	}
+	// shifted segments: a connection that is never idle for more than 100 ms, in use for more than
+	// twice the idle time-out, whose segments never end on a frame boundary: every segment carries the
+	// rest of one frame and the first octet of the next frame's length prefix. Every query is answered.
+	for _, listener := range listeners {
+		wg.Add(1)
+		go func(listener string) {
+			defer wg.Done()
+			var tc = b.ProxyTLS
+			if listener != "tls" {
+				tc = nil
+			}
+			sc, err := dnsclient.DialStream("", b.L[listener], tc)
+			if err != nil {
+				return
+			}
+			defer sc.Close()
+			const nq = 24
+			var stream []byte
+			var ends []int
+			for i := 0; i < nq; i++ {
+				stream = append(stream, dnsclient.Frame(mkQuery(uint16(100+i), fmt.Sprintf("ok-shift%dr%d.pipe.test.", i, len(listener)), dns.TypeA, dns.ClassINET, false))...)
+				ends = append(ends, len(stream))
+			}
+			off := 0
+			for i := 0; i < nq; i++ {
+				end := ends[i] + 1 // one octet into the next frame
+				if i == nq-1 {
+					end = len(stream)
+				}
+				if sc.WriteRaw(stream[off:end]) != nil {
+					break
+				}
+				off = end
+				time.Sleep(100 * time.Millisecond)
+			}
+			sc.WaitFrames(nq, 4*time.Second)
+			c.Ev.Eval(nq)
+			got := map[uint16]int{}
+			for _, f := range sc.Frames() {
+				m := new(dns.Msg)
+				if m.Unpack(f.Data) == nil {
+					got[m.Id]++
+				}
+			}
+			missing := 0
+			for i := 0; i < nq; i++ {
+				if got[uint16(100+i)] == 0 {
+					missing++
+				}
+			}
+			if missing > 0 {
+				st, _, _ := sc.State()
+				c.Violation("shifted-segments:missing-response:"+listener, fmt.Sprintf("%s (idle_timeout 1 s): %d of %d queries sent 100 ms apart on one connection got no response (read state of the connection: %v); every segment ended one octet into the next frame, the connection was never idle", listener, missing, nq, st),
+					map[string]any{"listener": listener, "queries": nq, "answered_ids": got})
+				return
+			}
+			c.Ev.Distinct("shifted-segments", listener, nq)
+			c.Ev.Count("shifted_segment_connections_fully_answered", 1)
+		}(listener)
+	}
 	wg.Wait()
 }
